@@ -98,6 +98,17 @@ def gen_pair(rng, acc, pos_fraction=0.15, exclude_edits=(), extra_containers=())
   root_btype = rng.choice(['Config', 'Partial'])
   root_fn = rng.choice(FNS[:7])
   old_root = g.dag(root_fn=root_fn, root_btype=root_btype)
+  # **kwargs names that are Python keywords or no identifiers at all (legal through **{...})
+  if rng.random() < 0.3:
+    for n in gen.walk(old_root):
+      if isinstance(n, gen.B) and n.btype != 'TaggedValue':
+        for k in [k for k in n.kw if k.startswith('extra_')]:
+          nk = rng.choice(['from', 'class', 'learning-rate', 'in'])
+          if nk not in n.kw:
+            n.kw = {(nk if kk == k else kk): v for kk, v in n.kw.items()}
+            if k in n.tags:
+              n.tags[nk] = n.tags.pop(k)
+            acc.obs('kwargs_named_like_keywords')
   mode = rng.choice(['edits', 'edits', 'edits', 'edits-sharing', 'edits-sharing', 'unrelated'])
   edits = []
   if mode == 'unrelated':
